@@ -130,6 +130,10 @@ def run_v(o: Outcome, n, thorough):
         ideal = tr.text(b["expected"])
         if ideal == out:
             continue  # same string, different tokenisation ("]]]" = "]" + "]]")
+        if tr.text(b.get("asis", b["expected"])) == out and o.known:
+            o.classify({"origin": "V", "lib": {k: tr.render_body(s) for k, s in cases[idx]["lib"].items()}, "page": src,
+                        "expected": ideal, "got": out}, "expand() differs from the reference transclusion semantics", sorted(o.known), cls="known")
+            continue
         o.violation(
             {"origin": "V", "lib": {k: tr.render_body(s) for k, s in cases[idx]["lib"].items()}, "page": src,
              "expected": ideal, "got": out, "ast": cases[idx]},
